@@ -287,6 +287,40 @@ def _lock_bbs(e):
     return {x.bb for x in walk(e) if x.k == "call" and (x.q == MUTEX_LOCK or x.q in CONDVAR_TIMED or x.q in CONDVAR_UNTIMED)}
 
 
+_locking_cache = {}
+
+
+def _state_locking_fns(facts):
+    k = id(facts)
+    if k not in _locking_cache:
+        from . import c04
+        cg = CallGraph(facts)
+        _locking_cache[k] = {q for q in c04.locking_fns(facts, cg) if q.startswith("circular_buffer::Buffer")}
+    return _locking_cache[k]
+
+
+def _stale_control(facts, body, bb, rv, wl):
+    """a controlling condition of the written value (the arms of an `if` that computes it, or the write itself) that reads the
+    ring state through a call which takes the state lock on its own"""
+    lockers = _state_locking_fns(facts)
+    blocks = {bb}
+    p = peel(rv, through_try=False)
+    if p is not None and p.k == "multi":
+        for dbb, si, kind, payload in body.defs().get(p.local, []):
+            blocks.add(dbb)
+    for b2 in blocks:
+        for f in facts_at(body, b2):
+            for e in f[1:]:
+                if isinstance(e, (int, bool)) or e is None:
+                    continue
+                for x in walk(e):
+                    if x.k == "call" and ((x.q in lockers) or (x.rq in lockers)) and getattr(x, "bb", None) is not None:
+                        # the locking call is not the acquisition the write happens under
+                        if not (_lock_bbs(x) & wl):
+                            return show(x)[:60]
+    return None
+
+
 def rule_r9(facts, col, rule_id="C03.R9"):
     """read-modify-write of the ring state happens under ONE lock acquisition"""
     for body in facts.bodies:
@@ -309,6 +343,12 @@ def rule_r9(facts, col, rule_id="C03.R9"):
                 nreads += 1
                 if wl and not (rl & wl):
                     stale.append(show(x)[:60])
+            # control dependence: the choice of what is written is made on a value obtained under ANOTHER lock acquisition (a
+            # call that locks the state itself, e.g. `let fills = n == self.free();` before taking the lock)
+            if wl and not stale:
+                ctl = _stale_control(facts, body, bb, rv, wl)
+                if ctl:
+                    stale.append("branch on " + ctl)
             if not wl:
                 col.silent(rule_id, key, body.where(bb), "write not through a visible guard")
             elif stale:
